@@ -40,6 +40,9 @@ type Case struct {
 	Class  string `json:"invalid_class,omitempty"`
 	// clause "history": the mutator calls applied to a fresh object at Dist
 	History []Step `json:"history,omitempty"`
+	// clause "alias" (alias.go): the route by which caller-owned objects reach the distribution, and the object mutated afterwards
+	Via string `json:"via,omitempty"`
+	Arg string `json:"mutated_object,omitempty"`
 }
 
 type reporter struct {
